@@ -3,7 +3,7 @@ import ast
 
 from . import rule, info
 from ..program import AnalysisError, src, norm, ClassInfo
-from ..util import (choice_leaves, is_name, calls_in, callee_qual, deref, ancestors, stmt_of, parent, handler_outcomes,
+from ..util import (exclusive, polarity, choice_leaves, is_name, calls_in, callee_qual, deref, ancestors, stmt_of, parent, handler_outcomes,
                     handler_covers, fmt_witness, kwarg)
 from ..pattern import match, matches
 
@@ -87,11 +87,31 @@ def memo_invalidation(ctx):
         resets += clears
         if name == 'register_op':
             # exempt with a checked precondition: only adds pairs absent from the map
-            skip = [x for x in u.own_nodes() if isinstance(x, ast.If) and isinstance(x.test, ast.Compare)
-                    and isinstance(x.test.ops[0], ast.In) and isinstance(x.body[0], ast.Continue)]
-            ok = bool(skip) or bool(resets)
+            # every store ``<map>[t] = handler`` is reachable only when t is not yet in that map
+            skip = []
+            # (the per-type stores: a handler filed under a type inside the loop over known types;
+            # re-filing the whole per-op map under its own name afterwards replaces nothing)
+            per_type = [s for s in stores if s.loop_stack and isinstance(s.ast, ast.Assign)
+                        and any(isinstance(t, ast.Subscript) and is_name(t.value) for t in s.ast.targets)]
+            ok = bool(per_type)
+            for s in per_type:
+                sn = s
+                tgt = [t for t in sn.ast.targets if isinstance(t, ast.Subscript)] if isinstance(sn.ast, ast.Assign) else []
+                guarded = False
+                for t in cfg.nodes:
+                    if t.kind != 'test' or not tgt:
+                        continue
+                    pol = polarity(t.ast, '%s in %s' % (norm(tgt[0].slice), norm(tgt[0].value)))
+                    if pol and cfg.dominates(t, sn):
+                        hdr = sn.loop_stack[-1] if sn.loop_stack else None
+                        if cfg.find_path(t, {sn}, avoid={hdr} if hdr else (), labels=lambda l: l != 'exc',
+                                         start_labels=lambda l, e=pol: l == e) is None:
+                            guarded = True
+                            skip.append(norm(t.ast))
+                ok = ok and guarded
+            ok = ok or bool(resets)
             ctx.ob(ok, u, 'register_op never replaces the handler of an already known (type, op) pair '
-                          '(so no memo entry can become stale): %s' % [norm(s.test) for s in skip])
+                          '(so no memo entry can become stale): %s' % skip)
             continue
         for s in stores:
             # every path from the store to the normal exit passes a reset
@@ -342,15 +362,44 @@ def tree_structure(ctx):
     ok = isinstance(lp.target, ast.Tuple) and norm(lp.iter) == 'type_tree.items()'
     ctx.ob(ok, u, 'the walk visits (type, subtree) pairs of the given tree: for %s in %s' % (src(lp.target), norm(lp.iter)))
     ct, sub = [e.id for e in lp.target.elts] if ok else (None, None)
-    iff = [n for n in lp.body if isinstance(n, ast.If)]
-    ok = len(iff) == 1 and norm(iff[0].test) == 'isinstance(%s, %s)' % (u.params[1], ct)
-    ctx.ob(ok, u, 'membership is decided by isinstance(obj, type)')
+    gcfg = ctx.cfg(u)
+    mem = [(t, polarity(t.ast, 'isinstance(%s, %s)' % (u.params[1], ct))) for t in gcfg.nodes if t.kind == 'test']
+    mem = [(t, e) for t, e in mem if e]
+    ctx.ob(len(mem) == 1, u, 'membership is decided by isinstance(obj, type)')
     rec = [c for c in calls_in(u) if isinstance(c.func, ast.Attribute) and c.func.attr == '_get_closest_type']
     ok = len(rec) == 1 and is_name(rec[0].args[0], u.params[1]) and is_name(kwarg(rec[0], 'type_tree', 1), sub)
+    if ok and mem:
+        hdr = gcfg.node_of(lp)
+        rn = gcfg.node_containing(rec[0])
+        ok = gcfg.dominates(mem[0][0], rn) and gcfg.find_path(
+            mem[0][0], {rn}, avoid={hdr}, labels=lambda l: l != 'exc',
+            start_labels=lambda l, e=('false' if mem[0][1] == 'true' else 'true'): l == e) is None
     ctx.ob(ok, u, 'a matching type\'s own subtree is searched for a more specific one: %s' % [norm(r) for r in rec])
-    ife = [n for n in u.own_nodes() if isinstance(n, ast.IfExp)]
-    ok = len(ife) == 1 and is_name(ife[0].body, ct) and norm(ife[0].test).endswith('is None') and is_name(ife[0].orelse)
-    ctx.ob(ok, u, 'the more specific type wins over the matching ancestor: %s' % [norm(x) for x in ife])
+    # the result for a matching type: the subtree's answer when there is one, else the type itself
+    ok = False
+    shown = []
+    if len(rec) == 1:
+        rst = stmt_of(rec[0])
+        subv = rst.targets[0].id if isinstance(rst, ast.Assign) and is_name(rst.targets[0]) else None
+        lrets = [n for n in gcfg.nodes if n.kind == 'stmt' and isinstance(n.ast, ast.Return) and gcfg.node_of(lp) in n.loop_stack]
+        shown = [norm(n.ast) for n in lrets]
+        if subv and len(lrets) == 1:
+            v = deref(gcfg, lrets[0], lrets[0].ast.value)
+            if isinstance(v, ast.IfExp):
+                pol = polarity(v.test, '%s is None' % subv)
+                a, b_ = (v.body, v.orelse) if pol == 'true' else (v.orelse, v.body)
+                ok = pol is not None and is_name(a, ct) and is_name(b_, subv)
+        elif subv and len(lrets) == 2:
+            for t in gcfg.nodes:
+                if t.kind != 'test':
+                    continue
+                pol = polarity(t.ast, '%s is None' % subv)
+                if pol:
+                    none_side = [n for n in exclusive(gcfg, t, pol) if n in lrets]
+                    some_side = [n for n in lrets if n not in none_side]
+                    ok = len(none_side) == 1 and is_name(none_side[0].ast.value, ct) and len(some_side) == 1 \
+                        and is_name(some_side[0].ast.value, subv)
+    ctx.ob(ok, u, 'the more specific type wins over the matching ancestor: %s' % shown)
     rets = [n for n in u.node.body if isinstance(n, ast.Return)]
     ok = len(rets) == 1
     if ok:
